@@ -698,11 +698,37 @@ def r4_machine(program, rep):
     defaults = {}
     if cr[0] == "new" and cr[2][0] == "dict":
         defaults = dict(cr[2][1])
+    else:
+        raise AnalysisError("build_machine: the default resources are not "
+                            "given as a dictionary display; that form is "
+                            "not analysed")
     okd = set(defaults) == set(attr)
     INFOV = ("elem", ("values", SI))
+    INFOI = ("comp", ("elem", ("items", SI)), 1)
+    running = {}
     for res, val in defaults.items():
         field = attr.get(res)
         found = False
+        if val[0] == "mu":
+            # a running maximum: starts at 0, every chip's quantity is folded
+            # in with max()
+            alts = [plain(x) for x in alternatives(val)]
+
+            def fold_ok(x):
+                if x in (("const", 0), ("rec",)) or x == plain(val):
+                    return True
+                if x[0] == "call" and x[1] == ("global", "max") and \
+                        len(x[2]) == 2 and not x[3]:
+                    a_, b_ = x[2]
+                    for u, v in ((a_, b_), (b_, a_)):
+                        if v in (("attr", INFOV, field),
+                                 ("attr", INFOI, field)) and fold_ok(u):
+                            return True
+                return False
+            if alts and all(fold_ok(x) for x in alts) and any(
+                    x[0] == "call" for x in alts):
+                found = True
+                running[res] = val
         for alt in alternatives(val):
             for st_ in subterms(plain(alt)):
                 if st_[0] == "call" and st_[1] == ("global", "max") and \
@@ -711,6 +737,14 @@ def r4_machine(program, rep):
                         st_[2][0][1] == ("attr", INFOV, field) and \
                         st_[2][0][2] == ((("values", SI), ()),):
                     found = True
+        if not found and (val[0] == "mu" or not any(
+                st_[0] == "call" and st_[1] == ("global", "max")
+                for alt in alternatives(val)
+                for st_ in subterms(plain(alt)))):
+            raise AnalysisError("build_machine: the machine-wide default of "
+                                "a resource is not computed by one max(...) "
+                                "over the chips (e.g. a running maximum); "
+                                "that form is not analysed")
         okd = okd and found
     rep.check(okd, "C14-R4", inst, "default chip resources aggregate "
               "num_cores / largest free SDRAM / SRAM over all chips into the "
@@ -718,6 +752,9 @@ def r4_machine(program, rep):
               node=fn)
     built = T.built_map(kw["chip_resource_exceptions"])
     oke = okv = False
+    if not built:
+        raise AnalysisError("build_machine: how the exceptions are "
+                            "collected is not analysed in this form")
     if built and len(built) == 1 and okd:
         it, key, val, cond = built[0]
         E = ("elem", ("items", SI))
@@ -732,6 +769,18 @@ def r4_machine(program, rep):
         pv = plain(val)
         okv = key == ("comp", E, 0) and pv[0] == "dict" and dict(pv[1]) == {
             res: ("attr", INFO, a_) for res, a_ in attr.items()}
+    if oke and running:
+        # compared with the final maxima: no update of a running maximum can
+        # follow the comparison
+        stores_ = [x for x in stores(T)
+                   if x[2] == kw["chip_resource_exceptions"]]
+        for res, mu in running.items():
+            for i in mu[1].ids:
+                bn = T.binds[i].node
+                if any(T.cfg.reaches(x[0], bn) for x in stores_) and \
+                        T.binds[i].mode != "param" and \
+                        plain(T._bind_term(T.binds[i])) != ("const", 0):
+                    oke = False
     rep.check(oke, "C14-R4", inst, "a chip is an exception iff any of its "
               "three quantities differs from the very value used as the "
               "default", construct="exception test", node=fn,
@@ -826,6 +875,10 @@ def r5_reservations(program, rep):
     GLOBAL = None
     if len(glob) == 1:
         built = T.filtered(glob[0][2][names[1]])
+        if not built:
+            raise AnalysisError("build_core_constraints: the cores reserved "
+                                "everywhere are selected in a form that is "
+                                "not analysed")
         if built and len(built) == 1:
             it, elt, conds = built[0]
             rng = ("call", ("global", "range"), (("const", 18),), ())
